@@ -120,6 +120,15 @@ pub fn lib_keys(d: &BigUint, how: u64, p: &mut Prng) -> Option<(Sm2PublicKey, Sm
     match how % 3 {
         0 => {
             let sk = lib_sk(d)?;
+            // the public key object alternately from the private key and decoded from COMPRESSED bytes
+            if how % 2 == 0 {
+                let pt = r2::mul(d, &r2::g())?;
+                let pk = match guard(|| Sm2PublicKey::new(&r2::encode(&pt, true))) {
+                    Outcome::Ret(Ok(k)) => k,
+                    _ => return None,
+                };
+                return Some((pk, sk));
+            }
             Some((sk.public_key, sk))
         }
         1 => {
